@@ -1,7 +1,7 @@
 ------------------------------ MODULE Trace_C16 ------------------------------
 (* Trace validation for C16 (InternalizeRefs with the default name resolver):              *)
-(*   terminates without panic; the serialised result contains no $ref outside              *)
-(*   #/components/...; it loads with external refs disallowed; it validates iff the        *)
+(*   terminates without panic; the serialised result contains no $ref that leaves the      *)
+(*   document (#/components/..., or a kept local path-item reference); it loads with external refs disallowed; it validates iff the        *)
 (*   original does; every reference site of the original resolves, in the reloaded         *)
 (*   document, to the same object (by x-id) -- which also excludes two distinct targets    *)
 (*   merged under one component name.                                                      *)
@@ -13,7 +13,10 @@ Init == l = 0
 Next == l < Len(Trace) /\ l' = l + 1
 Spec == Init /\ [][Next]_l
 
-Local(r) == r.file = "" /\ Len(r.frag) >= 2 /\ r.frag[1] = "components"
+(* a reference that stays inside the document: into its components section, or -- a path item that is a reference to another path   *)
+(* of the same document ("#/paths/~1x"), which InternalizeRefs keeps as it is (e12d660): there are no components.pathItems in 3.0 to   *)
+(* move it to.  It must still resolve to the same object after reloading (Lost), and anything with a file part must be gone.          *)
+Local(r) == r.file = "" /\ Len(r.frag) >= 2 /\ r.frag[1] \in {"components", "paths"}
 
 SameSite(a, b) == a.owner = b.owner /\ a.segs = b.segs
 
